@@ -275,3 +275,114 @@ def r9(ctx, prog):
     f = prog.fn1(L + '::handleExpiredTimers')
     ctx.ob('C02.R9', 'timers|replay', bad is None, '%d scripts' % len(scripts) if bad is None else
            'script %s: %s' % (' '.join('%s(%s)' % (a[0], a[1]) for a in bad[0]), bad[1]), where=f.loc(f.body))
+
+
+# ---- the timer pool on top of it ------------------------------------------------------------------------------------------------------
+
+TP = 'tbox::eventx::TimerPool'
+
+
+def run_pool_script(prog, script):
+    """the public TimerPool (doEvery / doAfter / cancel / cleanup) over the interpreted loop timers; first problem as text, or None"""
+    b = Bench(prog)
+    b.problem = None
+    b.last_due = None
+    it = b.it
+    it.hooks['runNext'] = b.h_run
+    it.hooks['isRunning'] = lambda it_, f, st, a: 1
+    fired = []          # (pool timer number, clock)
+    pool = it.new_record(TP)
+    it._keep.append(pool)
+    ctor = [g for g in prog.by_name.get(TP + '::TimerPool', ()) if g.d.get('ctor') and len(g.params) == 1 and g.body is not None]
+    if len(ctor) != 1:
+        raise AnalysisBroken('TimerPool(Loop*): %d candidate(s)' % len(ctor))
+    it.run_ctor(ctor[0], ctor[0].stmts[0], pool, TP, ctor[0], [it.ref(b.loop)])
+    impl = it.record_of(pool.get('impl_'))
+    if impl is None:
+        raise AnalysisBroken('TimerPool::impl_ is not a record after construction')
+    cab = impl.get('timers_')
+    if isinstance(cab, dict):
+        for k_, v_ in (('last_id_', 0), ('first_free_', (1 << 64) - 1), ('count_', 0)):
+            if cab.get(k_) == 'uninit':
+                cab[k_] = v_
+
+    def call(name, args, pick=None):
+        cands = [g for g in prog.by_name.get(TP + '::' + name, ()) if g.body is not None and len(g.params) == len(args) and (pick is None or pick(g))]
+        if len(cands) != 1:
+            raise AnalysisBroken('TimerPool::%s/%d: %d candidate(s)' % (name, len(args), len(cands)))
+        return it.call(cands[0], list(args), this=pool)
+    timers = []         # per pool timer: {'kind', 'd', 'due', 'tok', 'n'}
+    for n, a in enumerate(script):
+        when = 'step %d (%s)' % (n + 1, ' '.join(str(x) for x in a))
+        k = a[0]
+        if k in ('every', 'after'):
+            idx = len(timers)
+            tok = call('doEvery' if k == 'every' else 'doAfter', [a[1], (lambda idx=idx: fired.append((idx, b.clock)))], pick=lambda g: g.params[1]['t'].rstrip().endswith('&&'))
+            r = it.record_of(tok) if not isinstance(tok, dict) else tok
+            timers.append({'kind': k, 'd': a[1], 'due': b.clock + a[1], 'tok': dict(r) if r else None, 'n': 0})
+        elif k == 'cancel' and a[1] < len(timers):
+            t = timers[a[1]]
+            ans = call('cancel', [it.ref(dict(t['tok']))])
+            want = t['due'] is not None
+            if bool(ans) != want:
+                return '%s: cancel() answers %s for a timer that is %s' % (when, bool(ans), 'pending' if want else 'already gone (fired one-shot or cancelled)')
+            t['due'] = None
+        elif k == 'cleanup':
+            call('cleanup', [])
+            for t in timers:
+                t['due'] = None
+        elif k == 'adv':
+            b.clock += a[1]
+            c0 = len(fired)
+            b.loop_pass()
+            if it.faults:
+                return '%s: %s' % (when, it.faults[0])
+            got = fired[c0:]
+            for idx, t in enumerate(timers):
+                want = 0
+                while t['due'] is not None and t['due'] <= b.clock:
+                    want += 1
+                    t['due'] = t['due'] + t['d'] if t['kind'] == 'every' else None
+                have = sum(1 for x in got if x[0] == idx)
+                if have != want:
+                    return '%s: the callback of %s(%d) (timer %d of the pool) runs %d time(s) in the pass at %d where %d is due' % (when, 'doEvery' if t['kind'] == 'every' else 'doAfter', t['d'], idx, have, b.clock, want)
+        if it.faults:
+            return '%s: %s' % (when, it.faults[0])
+    call('cleanup', [])
+    b.clock += 50
+    c0 = len(fired)
+    b.loop_pass()
+    if it.faults:
+        return 'after cleanup(): %s' % it.faults[0]
+    if len(fired) != c0:
+        return 'a callback of the pool runs after cleanup()'
+    if b.live:
+        return '%d timer object(s) of the loop are never released after cleanup() of the pool' % len(b.live)
+    return None
+
+
+def r10(ctx, prog):
+    depth = 5 if ctx.tier == 'thorough' else 4
+    alpha = [('every', 2), ('after', 3), ('after', 1), ('cancel', 0), ('cancel', 1), ('adv', 1), ('adv', 2), ('adv', 7), ('cleanup',)]
+    scripts = []
+    for n in range(2, depth + 1):
+        for s_ in itertools.product(alpha, repeat=n):
+            if s_[0][0] not in ('every', 'after') or s_[-1][0] != 'adv':
+                continue
+            scripts.append(s_)
+    ctx.rule('C02.R10', 'A10 the timer pool by abstract replay: %d scripts of up to %d steps (doEvery, doAfter, cancel, cleanup, loop passes after 1, 2 or 7 ms) run on the syntax trees of '
+             'TimerPool and its Impl on top of the interpreted loop timers: the callback of doEvery(d) runs once per elapsed period, that of doAfter(d) once when d has elapsed and '
+             'never again, cancel() answers true exactly for a pending timer and silences it, nothing runs after cleanup(), no timer object is used after its release and every one is '
+             'released' % (len(scripts), depth), floor=1)
+    if not any(g.name == TP + '::Impl::doEvery' for g in prog.funcs.values()):
+        from tbxlint.facts import extract
+        prog = extract('ALL')
+    bad = None
+    for s_ in scripts:
+        why = run_pool_script(prog, s_)
+        if why is not None:
+            bad = (s_, why)
+            break
+    f = prog.fn1(TP + '::Impl::doAfter')
+    ctx.ob('C02.R10', 'timer-pool|replay', bad is None, '%d scripts' % len(scripts) if bad is None else
+           'script %s: %s' % (' '.join('%s(%s)' % (a[0], ','.join(str(x) for x in a[1:])) for a in bad[0]), bad[1]), where=f.loc(f.body))
